@@ -25,6 +25,7 @@
 #ifndef PHQ_DIRECTION_HPP
 #define PHQ_DIRECTION_HPP
 
+#include <algorithm>
 #include <array>
 #include <cmath>
 #include <cstddef>
@@ -417,17 +418,20 @@ inline Angle<NumericType> Vector<NumericType>::Angle(
 template <typename NumericType>
 inline Angle<NumericType>::Angle(
     const Vector<NumericType>& vector, const Direction<NumericType>& direction)
-  : Angle(std::acos(vector.Dot(direction) / vector.Magnitude())) {}
+  : Angle(std::acos(std::clamp(vector.Dot(direction) / vector.Magnitude(),
+                               static_cast<NumericType>(-1), static_cast<NumericType>(1)))) {}
 
 template <typename NumericType>
 inline Angle<NumericType>::Angle(
     const Direction<NumericType>& direction, const Vector<NumericType>& vector)
-  : Angle(std::acos(direction.Dot(vector) / vector.Magnitude())) {}
+  : Angle(std::acos(std::clamp(direction.Dot(vector) / vector.Magnitude(),
+                               static_cast<NumericType>(-1), static_cast<NumericType>(1)))) {}
 
 template <typename NumericType>
 inline Angle<NumericType>::Angle(
     const Direction<NumericType>& direction1, const Direction<NumericType>& direction2)
-  : Angle(std::acos(direction1.Dot(direction2))) {}
+  : Angle(std::acos(std::clamp(
+      direction1.Dot(direction2), static_cast<NumericType>(-1), static_cast<NumericType>(1)))) {}
 
 template <typename NumericType>
 inline constexpr PlanarDirection<NumericType>::PlanarDirection(
